@@ -155,6 +155,9 @@ def build_drivers(it, p, names=(("DevA", "DEVA"), ("DevB", "DEVB")), router=None
     it.opts["call_may_raise"] = None
     it.opts["assert_forks"] = False
     it.opts.pop("max_for", None)
+    # the world is made of constants: a loop over something the interpreter does not know is "not decided", never a
+    # basis for a verdict (an unmodelled library call would otherwise yield a world with parts silently missing)
+    it.opts["concrete_only"] = True
     fr = Frame(None, mod, {})
     out = {}
     try:
@@ -192,3 +195,5 @@ def build_drivers(it, p, names=(("DevA", "DEVA"), ("DevB", "DEVB")), router=None
     finally:
         it.opts.clear()
         it.opts.update(saved)
+        if saved.get("concrete_only") is not False:
+            it.opts["concrete_only"] = True  # what is evaluated on the constructed world stays within constant evaluation
